@@ -119,6 +119,18 @@ protected:
   virtual bool is_equal(const CPPDeclaration *other) const;
   virtual bool is_less(const CPPDeclaration *other) const;
 
+  // A virtual function, the class that declares it, and, if it belongs to a
+  // sub-object that is shared by way of virtual inheritance, the virtual base
+  // class that this sub-object is or is part of.
+  class VirtualFunc {
+  public:
+    CPPInstance *_inst;
+    const CPPStructType *_owner;
+    const CPPStructType *_virtual_root;
+  };
+  typedef std::list<VirtualFunc> VirtualFuncs;
+  void get_virtual_funcs(VirtualFuncs &funcs) const;
+
   bool _subst_decl_recursive_protect;
   typedef std::vector<CPPTypeProxy *> Proxies;
   Proxies _proxies;
